@@ -332,8 +332,15 @@ func TestReplayDir(t *testing.T) {
 		t.Skip("VERIF_REPLAY_DIR not set")
 	}
 	files, _ := filepath.Glob(filepath.Join(dir, prop+"-*.json"))
+	skip := map[string]bool{}
+	for _, f := range strings.Split(os.Getenv("VERIF_REPLAY_SKIP"), ",") {
+		skip[f] = true
+	}
 	bad := 0
 	for _, f := range files {
+		if skip[f] {
+			continue
+		}
 		crumbPath(f)
 		if err := replayOne(f); err != nil {
 			bad++
